@@ -96,21 +96,38 @@ func init() {
 			Real: []string{"resolver.NewResolver + run() + checkPriming + AutoTA", "atomicGobWrite / syncDir", "dnssec.VerifyRRSIG*", "dnsclient.Conn", "Resolver.Resolve / exchange"},
 			Stub: []string{"kernel sockets (simnet)", "kernel file system (simdisk)", "root server (scripted signer)", "middleware chain (empty pipeline: only Ready())"},
 		},
-		Gen:      func(r *kit.RNG, tier string) any { return genC09(r, tier) },
+		Gen:      func(r *kit.RNG, tier string) any { return genC09(r, tier, -1) },
+		GenAt: func(i int, r *kit.RNG, tier string) any {
+			if i%8 < c09Templates {
+				return genC09(r, tier, i%8)
+			}
+			return genC09(r, tier, -1)
+		},
 		Blank:    func() any { return &C09Scenario{} },
 		Run:      func(sc any, tr *kit.Trace) *kit.Result { return runC09(sc.(*C09Scenario), tr) },
 		Shrink:   shrinkC09,
 		PerChunk: 2,
-		Quick:    22,
+		Quick:    32,
 		Thorough: 4000,
 	})
 }
 
 // ---------------------------------------------------------------- generator
 
-func genC09(r *kit.RNG, tier string) *C09Scenario {
+// genC09: forced selects one of the hand-written templates (0..c09Templates-1); -1 leaves the
+// choice to the coins. Within a run the first c09Templates of every 8 scenarios are the
+// templates in turn (GenAt), so that every batch, also the quick one, contains each of them.
+const c09Templates = 3
+
+func genC09(r *kit.RNG, tier string, forced int) *C09Scenario {
 	sc := &C09Scenario{}
-	if r.Chance(0.08) {
+	pick := func(k int, p float64) bool {
+		if forced >= 0 {
+			return forced == k
+		}
+		return r.Chance(p)
+	}
+	if pick(0, 0.08) {
 		// Template: roll from an anchor whose key tag wraps when REVOKE is set to a new
 		// key, then revoke the old one (self-signed and co-signed by the new key).
 		sc.Keys = []C09Key{{Alg: dns.ED25519, Idx: kit.Pick(r, []int{5735, 5988, 6629})}, {Alg: dns.ED25519, Idx: 100 + r.Intn(40)}}
@@ -123,7 +140,7 @@ func genC09(r *kit.RNG, tier string) *C09Scenario {
 		sc.Enumerate = 1
 		return sc
 	}
-	if r.Chance(0.07) {
+	if pick(1, 0.07) {
 		// Template: a key is announced, then no refresh is accepted for about the length of
 		// the add hold-down (signatures broken), and the first accepted refresh after that no
 		// longer carries the key — "present in every accepted refresh" fails at the last one.
@@ -140,6 +157,22 @@ func genC09(r *kit.RNG, tier string) *C09Scenario {
 		if r.Chance(0.5) {
 			sc.Pubs = append(sc.Pubs, C09Pub{AtMin: back + kit.Pick(r, []int{1440, 5 * 1440}), Keys: []int{0, 1}, Signers: []int{0}})
 		}
+		sc.CrashConfig = []int{0}
+		sc.Enumerate = 1
+		return sc
+	}
+	if pick(2, 0.07) {
+		// Template: a key that has been a trust anchor for more than 90 days is left out of
+		// one or more validly signed refreshes and comes back. The remove hold-down (90 days)
+		// counts from when it went missing: it stays trusted all along.
+		sc.Keys = []C09Key{{Alg: dns.ED25519, Idx: 100 + r.Intn(40)}, {Alg: dns.ED25519, Idx: 200 + r.Intn(40)}}
+		sc.Days = 150
+		sc.Config = []int{0}
+		gone := r.Range(93, 125)*1440 + r.Intn(1440)
+		back := gone + kit.Pick(r, []int{720, 1440, 5 * 1440, 20 * 1440})
+		sc.Pubs = []C09Pub{{AtMin: 0, Keys: []int{0, 1}, Signers: []int{0}},
+			{AtMin: gone, Keys: []int{0}, Signers: []int{0}},
+			{AtMin: back, Keys: []int{0, 1}, Signers: []int{0}}}
 		sc.CrashConfig = []int{0}
 		sc.Enumerate = 1
 		return sc
